@@ -1169,6 +1169,13 @@ func (x *Exec) evalSpecCall(e *ast.CallExpr, st *State) (Value, types.Type) {
 			}
 		}
 		tmp.old = nil
+		// locals that did not exist yet at entry denote their current values (old(g.mode) for a local g
+		// reads g's field in the entry heap)
+		for ob, v := range st.env {
+			if _, ok := tmp.env[ob]; !ok {
+				tmp.env[ob] = v
+			}
+		}
 		return x.eval(e.Args[0], tmp)
 	case "nth": // nth(f(args), i): the i-th result of a pure multi-result function
 		call, ok := e.Args[0].(*ast.CallExpr)
@@ -1601,7 +1608,62 @@ func (x *Exec) libModel(name string) (libModelFn, bool) {
 		}
 	}
 	m, ok := libModels[name]
+	if !ok && strings.HasPrefix(name, "types.") {
+		// go/types is a functional API: its accessors are pure functions of their (non-function) arguments
+		if so, ok2 := x.goTypesResultSort(name); ok2 {
+			return func(x *Exec, st *State, e *ast.CallExpr, a []Value, _ []types.Type) (Value, bool) {
+				var ts []Term
+				for _, v := range a {
+					if t, isT := v.(Term); isT {
+						ts = append(ts, t)
+					}
+				}
+				x.noteAssume("go/types accessors are pure functions (" + name + ")")
+				return x.uf("lib_"+name, so, ts...), true
+			}, true
+		}
+	}
 	return m, ok
+}
+
+// goTypesResultSort: the sort of the single result of go/types' function or method `types.[T.]name`.
+func (x *Exec) goTypesResultSort(name string) (Sort, bool) {
+	var tp *types.Package
+	for _, imp := range x.pkg.Types.Imports() {
+		if imp.Path() == "go/types" {
+			tp = imp
+		}
+	}
+	if tp == nil {
+		return "", false
+	}
+	parts := strings.Split(strings.TrimPrefix(name, "types."), ".")
+	var sig *types.Signature
+	switch len(parts) {
+	case 1:
+		if fn, ok := tp.Scope().Lookup(parts[0]).(*types.Func); ok {
+			sig = fn.Type().(*types.Signature)
+		}
+	case 2:
+		// methods promoted from the unexported `object` are named types.object.M by calleeName
+		cands := []string{parts[0]}
+		if parts[0] == "object" {
+			cands = []string{"Var", "Func", "TypeName", "Const"}
+		}
+		for _, tn := range cands {
+			if o := tp.Scope().Lookup(tn); o != nil {
+				if m, _, _ := types.LookupFieldOrMethod(types.NewPointer(o.Type()), true, tp, parts[1]); m != nil {
+					if fn, ok := m.(*types.Func); ok {
+						sig = fn.Type().(*types.Signature)
+					}
+				}
+			}
+		}
+	}
+	if sig == nil || sig.Results().Len() != 1 {
+		return "", false
+	}
+	return x.sortOf(sig.Results().At(0).Type()), true
 }
 
 type modTarget struct {
